@@ -376,11 +376,18 @@ impl Property for C19 {
         if idx % nshards == shard {
             f(Case::SelfTemplate { els: vec![], allow_collision: false });
         }
+        // the push of no data as an element (byte 00): alone, first, between opcodes
+        for els in [vec![El::Push(0, Bytes::Lit(vec![]))], vec![El::Push(0, Bytes::Lit(vec![])), El::Op(0x6a), El::Push(0, Bytes::Lit(vec![0xaa, 0xbb]))], vec![El::Op(0x76), El::Push(0, Bytes::Lit(vec![])), El::Op(0x87)]] {
+            idx += 1;
+            if idx % nshards == shard && !f(Case::SelfTemplate { els, allow_collision: false }) {
+                return;
+            }
+        }
     }
 
     fn strategy(_tier: Tier) -> BoxedStrategy<Case> {
         // the self-template case draws from every opcode byte the parser accepts, the four template words' bytes included (rarely)
-        let minimal_els = prop::collection::vec(prop_oneof![60 => prop::sample::select(script_ops()).prop_map(El::Op), 1 => (251u8..=254).prop_map(El::Op), 48 => gs::push_minimal(false), 24 => (0u8..=255).prop_map(|b| El::Push(0, Bytes::Lit(vec![b])))], 0..8);
+        let minimal_els = prop::collection::vec(prop_oneof![60 => prop::sample::select(script_ops()).prop_map(El::Op), 1 => (251u8..=254).prop_map(El::Op), 48 => gs::push_minimal(false), 24 => (0u8..=255).prop_map(|b| El::Push(0, Bytes::Lit(vec![b]))), 3 => Just(El::Push(0, Bytes::Lit(vec![])))], 0..8);
         prop_oneof![
             12 => (prop::collection::vec(item(), 1..7), prop::collection::vec(mode(), 1..7), prop_oneof![8 => Just(0i8), 1 => Just(1i8), 1 => Just(-1i8)], prop::bool::weighted(0.15))
                 .prop_map(|(items, modes, resize, allow_collision)| Case::Match { items, modes, resize, allow_collision }),
